@@ -68,6 +68,8 @@ if __name__ == "__main__":
     E["fixed-C15-markdown-export-optimizes-live-tables"] = ("C15", [{"op": "init", "source": "template:text"}, {"op": "edit", "kind": "table", "n": 6}, {"op": "read", "entries": ["doc.to_markdown"]}], "pass")
     E["fixed-C20-toc-entry-trailing-line-break"] = ("C20", [{"op": "init", "toc_at": "first", "outline": 0}, {"op": "add_heading", "n": 1, "level": 1, "text": "Title 1"}, {"op": "fill", "n": 2, "via": "attached", "default_styles": True}], "pass")
     E["C04-original-reads-overwritten-source-at-save"] = ("C04", [{"op": "init", "source": "sample:span_style.odt", "how": "path", "salt": 7}, SAVE(target="inplace"), {"op": "clone_swap"}, {"op": "add_file", "via": "chunked", "content": 2}, SAVE(target="existing", existing=0), {"op": "save_other"}], "violation")
+    E["C10-original-reads-overwritten-source-at-save"] = ("C10", [{"op": "init", "source": "sample:frame_image.odp", "how": "path", "salt": 9}, {"op": "clone_doc"}, {"op": "add_file", "via": "image", "content": 1, "on": "twin"}, {"op": "twin_save_over_source"}, {"op": "twin_package_check"}], "violation", DCFG)
+    E["fixed-C11-pretty-save-raises-on-comment"] = ("C11", [{"op": "init", "source": "template:text"}, {"op": "set_part", "kind": "xml", "n": 1, "name": "settings.xml"}, {"op": "save_set", "variants": [{"packaging": "zip", "pretty": True, "target": "bytesio"}]}], "pass")
     for fid, ent in E.items():
         prop, ops, expect = ent[:3]
         cfg = ent[3] if len(ent) > 3 else None
